@@ -139,7 +139,8 @@ class GnssUBlox(UbxServerBase_):
             for entry in data_json:
                 try:
                     data_map = json.loads(entry)
-                    if 'class' in data_map:
+                    # Only JSON objects carry a class, ignore bare numbers, strings, lists, ..
+                    if isinstance(data_map, dict) and 'class' in data_map:
                         msg_class = data_map['class']
                         if msg_class == 'VERSION':
                             self._parse_version(data_map)
